@@ -204,6 +204,70 @@ theorem first_attempt_no_timeout (s s' : St) (hall : ∀ th ∈ s.thr, th.wRes =
       simp [hall th hth]
   · contradiction
 
+/-- **`shutdown()` itself never blocks**: at each of its program points the control thread's next
+action is enabled whatever the other threads do, so `shutdown()` completes in at most four own
+actions (release the clock, set resume, set shutdown, return). -/
+theorem shutdown_never_blocks (s : St) :
+    (s.ctl.pc = .sdClock → (cstep s .cClockResume).isSome = true) ∧
+    (s.ctl.pc = .sdSet → (cstep s .cSetResume).isSome = true) ∧
+    (s.ctl.pc = .sdShut → (cstep s .cSetShutdown).isSome = true) ∧
+    (s.ctl.pc = .sdDone → (cstep s .cShutdownRet).isSome = true) := by
+  refine ⟨?_, ?_, ?_, ?_⟩ <;> intro h <;> simp [cstep, h]
+
+/-- **`resume()` never blocks** either. -/
+theorem resume_never_blocks (s : St) :
+    (s.ctl.pc = .rsClock → (cstep s .cClockResume).isSome = true) ∧
+    (s.ctl.pc = .rsSet → (cstep s .cSetResume).isSome = true) ∧
+    (s.ctl.pc = .rsDone → (cstep s .cResumeRet).isSome = true) := by
+  refine ⟨?_, ?_, ?_⟩ <;> intro h <;> simp [cstep, h]
+
+/-- **A pause attempt cannot get stuck waiting for acknowledgements**: while the control thread waits
+for its workers, either a worker is still to be spawned, or a spawned worker can return (its time-out
+is always available), or all have returned and the control thread can go on. Together with
+`attempt < maxAttempts` (next theorem) `try_pause` takes at most `maxAttempts` attempts of at most
+one time-out each. -/
+theorem pause_attempt_never_stuck (s : St) (h : s.ctl.pc = .tpSpawn) :
+    (∃ t, (cstep s (.cSpawnWorker t)).isSome = true) ∨
+    (∃ t, (cstep s (.wRet t false)).isSome = true) ∨
+    (cstep s .cWorkersJoined).isSome = true := by
+  by_cases hall : s.thr.all (fun x => x.wRes.isSome) = true
+  · right; right
+    simp only [cstep, h, hall, and_self, if_true]
+    split <;> simp
+  · -- some thread has no result yet: its worker is either not spawned or can time out
+    have hex : ∃ th ∈ s.thr, th.wRes.isSome = false := by
+      apply Classical.byContradiction
+      intro hcon
+      apply hall
+      rw [List.all_eq_true]
+      intro x hx
+      cases hxs : x.wRes.isSome with
+      | true => rfl
+      | false => exact absurd ⟨x, hx, hxs⟩ hcon
+    obtain ⟨th, hth, hres⟩ := hex
+    obtain ⟨t, ht, hget⟩ := List.getElem_of_mem hth
+    have hget' : s.thr[t]? = some th := by rw [List.getElem?_eq_getElem ht, hget]
+    have hnone : th.wRes = none := by
+      cases hw : th.wRes with
+      | none => rfl
+      | some v => simp [hw] at hres
+    cases hsp : th.wSpawned
+    · left; exact ⟨t, by simp [cstep, hget', h, hsp]⟩
+    · right; left; exact ⟨t, by simp [cstep, hget', hsp, hnone]⟩
+
+/-- The retry counter stays below the configured maximum while an attempt is in progress. -/
+theorem attempts_bounded (s s' : St) (hs : cstep s .cSetResume = some s') (h : s.ctl.pc = .tpRetry) :
+    s'.ctl.attempt = s.ctl.attempt + 1 ∧
+    (s'.ctl.pc = .tpLock → s'.ctl.attempt < s'.ctl.maxAttempts) ∧
+    (s'.ctl.pc = .tpLock ∨ s'.ctl.pc = .tpDone false) := by
+  simp only [cstep, h, if_true] at hs
+  cases hs
+  refine ⟨rfl, ?_, ?_⟩
+  · simp only
+    split <;> simp_all
+  · simp only
+    split <;> simp
+
 /-! Non-vacuity: shutdown while paused, from the C01 witness state. -/
 def shutdownTrace : List Act :=
   witnessTrace ++ [.cTryPauseRet true, .cCmdShutdown, .cShutdown, .cClockResume, .cSetResume, .cSetShutdown]
